@@ -44,6 +44,13 @@ def gen_table(rng, nR, nS, nC, sparsity="dense", scale=None, shuffle=False):
         for r in range(nR):
             Z[r * nS + p][f] = 0.0
         info["unused"] = [p, f]
+    elif sparsity == "tiny_input":
+        # flows so small that the input is not a "real" input (Z_C <= X_0 * 1e-5 per step), yet not zero
+        f = rng.randrange(N)
+        p = rng.randrange(nS)
+        for r in range(nR):
+            Z[r * nS + p][f] = _logu(rng, 1e-12, 1e-10)
+        info["tiny"] = [p, f]
     elif sparsity == "zero_output":
         zero_out = rng.randrange(N)
         for j in range(N):
@@ -118,11 +125,11 @@ def gen_model(rng, t, profile):
     m = {}
     m["class"] = profile.get("class") or rng.choice(["psi", "psi", "base"])
     m["order_type"] = profile.get("order_type") or rng.choice(["alt", "noalt"])
-    m["alpha_max"] = rng.choice([1.0, 1.25, 1.1, 2.0])
+    m["alpha_max"] = rng.choice(profile.get("alpha_max_choices") or [1.0, 1.25, 1.1, 2.0])
     m["alpha_base"] = 1.0 if rng.random() < 0.7 else round(rng.uniform(1.0, m["alpha_max"]), 3)
     if profile.get("alpha_base_one"):
         m["alpha_base"] = 1.0
-    m["alpha_tau"] = rng.choice([1, 30, 365])
+    m["alpha_tau"] = rng.choice(profile.get("alpha_tau_choices") or [1, 30, 365])
     m["dt"] = profile.get("dt") or rng.choice([1, 1, 1, 2, 7])
     if m["alpha_tau"] < m["dt"]:
         m["alpha_tau"] = m["dt"]
@@ -199,6 +206,10 @@ def gen_event(rng, t, m, K, horizon, kind=None, profile=None):
     occ = rng.randint(1, max(1, (horizon - 2) // dt // 2)) * dt if dt > 1 else rng.randint(1, max(1, horizon // 2))
     occ = max(1, min(occ, horizon - 1))
     dur = rng.randint(1, max(1, min(6, horizon - occ)))
+    if profile.get("occ_max"):
+        occ = rng.randint(1, min(profile["occ_max"], horizon - 1))
+    if profile.get("rec_dur"):
+        dur = rng.randint(profile["rec_dur"][0], max(profile["rec_dur"][0], min(profile["rec_dur"][1], horizon - occ)))
     e["occ"], e["dur"] = occ, dur
     if kind in ("rebuild", "recovery"):
         mu = m["monetary_factor"]
@@ -225,13 +236,19 @@ def gen_event(rng, t, m, K, horizon, kind=None, profile=None):
         e["rs_kind"] = rng.choice(["dict", "series"])
         e["factor"] = rng.choice([1.0, 1.0, 0.5, 1.7])
     elif kind == "recovery":
-        e["tau"] = rng.choice([1, 3, 10, 40])
+        e["tau"] = rng.choice(profile.get("rec_tau") or [1, 3, 10, 40])
         e["recovery_function"] = rng.choice(["linear", "convexe", "convexe noscale", "concave", "user"])
     else:
         n = rng.randint(1, min(3, len(inds)))
         ks = sorted(rng.sample(range(len(inds)), n))
-        e["impact"] = [[list(inds[k]), round(rng.uniform(0.05, 0.9), 3)] for k in ks]
-        e["tau"] = rng.choice([1, 3, 10])
+        tiny = t["info"].get("tiny")
+        if tiny is not None and profile.get("hit_tiny_suppliers") and rng.random() < 0.8:
+            # hit every producer of the product that some industry uses only marginally
+            nS_ = len(t["sectors"])
+            ks = [k_ for k_ in range(len(inds)) if k_ % nS_ == tiny[0]]
+        lo_, hi_ = profile.get("arb_hi") or (0.05, 0.9)
+        e["impact"] = [[list(inds[k]), round(rng.uniform(lo_, hi_), 3)] for k in ks]
+        e["tau"] = rng.choice(profile.get("rec_tau") or [1, 3, 10])
         e["recovery_function"] = rng.choice(["linear", "convexe", "convexe noscale", "concave", "user"])
     return e
 
@@ -251,11 +268,24 @@ PROFILES = {
     # small, quickly rebuilt damages: events finish while others are still rebuilding / start later
     "rebuild_finish": dict(events=(2, 4), kinds=["rebuild", "rebuild", "rebuild", "recovery"], horizon=(30, 60),
                            p_house=0.5, reb_tau=[1, 2, 3], frac_hi=0.05, dt=1, emf_same=False),
+    # strong, quickly recovered shocks followed by a long tail: capacity is back (no capacity
+    # loss) while overproduction factors are still uneven
+    "aftermath": dict(events=(1, 2), kinds=["recovery", "arbitrary", "recovery"], horizon=(25, 40),
+                      frac_hi=0.9, rec_tau=[1, 2, 3], rec_dur=(1, 3), occ_max=4, dt=1,
+                      alpha_tau_choices=[1, 5, 30], alpha_max_choices=[1.25, 2.0], alpha_base_one=True,
+                      psi_choices=[0.5, 0.8, 1.0]),
+    # inventories far below one step of use at the shortage threshold (psi * s < 1) and a long,
+    # deep supply shock: stocks are exhausted, possibly without any industry being "in shortage"
+    "exhaust": dict(events=(1, 2), kinds=["arbitrary", "recovery"], horizon=(20, 35), inv_mode="short",
+                    psi_choices=[0.05, 0.1, 0.3], frac_hi=0.95, arb_hi=(0.7, 0.97), rec_tau=[20, 40], rec_dur=(3, 8),
+                    occ_max=3, dt=1, sparsity_choices=["dense", "tiny_input", "tiny_input", "partial_final"], hit_tiny_suppliers=True,
+                    **{"class": "psi"}),
     "shortage": dict(events=(1, 2), kinds=["recovery", "arbitrary", "rebuild"], horizon=(15, 30),
-                     inv_mode="short", psi_choices=[0.1, 0.5], frac_hi=0.9),
+                     inv_mode="short", psi_choices=[0.1, 0.5], frac_hi=0.9,
+                     sparsity_choices=["dense", "tiny_input", "random_zeros", "tiny_input", "partial_final"], hit_tiny_suppliers=True),
 }
 
-SPARSITIES = ["dense", "dense", "random_zeros", "unused_input", "zero_output", "no_intermediate_sales", "partial_final"]
+SPARSITIES = ["dense", "dense", "random_zeros", "unused_input", "zero_output", "no_intermediate_sales", "partial_final", "tiny_input"]
 
 
 def gen_scenario(seed, profile_name="mixed", overrides=None):
@@ -268,7 +298,7 @@ def gen_scenario(seed, profile_name="mixed", overrides=None):
     if nR * nS > 9:
         nS = 3
     nC = prof.get("nC") or rng.choice([1, 1, 2])
-    sparsity = prof.get("sparsity") or rng.choice(SPARSITIES)
+    sparsity = prof.get("sparsity") or rng.choice(prof.get("sparsity_choices") or SPARSITIES)
     t = gen_table(rng, nR, nS, nC, sparsity=sparsity, shuffle=(rng.random() < 0.5 or bool(prof.get("shuffle"))))
     if prof.get("psi_choices"):
         prof["psi"] = rng.choice(prof["psi_choices"])
